@@ -21,9 +21,11 @@ import time
 
 ROOT = os.path.dirname(os.path.abspath(__file__))
 SPEC = os.path.join(ROOT, "spec")
-HARNESS = os.path.join(ROOT, "harness")
-OUT = os.path.join(ROOT, "out")
-EVID = os.path.join(ROOT, "evidence")
+# The three overrides below exist only for the sensitivity matrix (seeded/matrix.sh), which runs the checks
+# against a scratch copy of the repository with a seeded change; registered checks never set them.
+HARNESS = os.environ.get("VV_HARNESS_DIR", os.path.join(ROOT, "harness"))
+OUT = os.environ.get("VV_OUT", os.path.join(ROOT, "out"))
+EVID = os.environ.get("VV_EVID", os.path.join(ROOT, "evidence"))
 REPO = "/repo"
 NCPU = os.cpu_count() or 4
 
@@ -147,6 +149,7 @@ def write_cfg(path, spec="Spec", constants=None, invariants=(), properties=(), v
     if symmetry:
         lines.append("SYMMETRY %s" % symmetry)
     lines.append("CHECK_DEADLOCK FALSE")
+    os.makedirs(os.path.dirname(path), exist_ok=True)
     with open(path, "w") as f:
         f.write("\n".join(lines) + "\n")
 
